@@ -274,6 +274,23 @@ def main():
             mod.run(ctx, model_ok)
         except Exception:
             ctx.unproved("harness", "the check's own machinery raised an exception", {"trace": traceback.format_exc()})
+    # the listed known findings of this property are probed explicitly, so that each still-present one is reported as
+    # KNOWN-FINDING on every run (and silently disappears once repaired)
+    if build_ok:
+        for f in ctx.known:
+            if f.get("status") == "known" and f.get("property") == pid and f.get("example") and f["id"] not in [h["id"] for h in ctx.known_hits]:
+                try:
+                    r = core.run_cli(f["example"])
+                    if hasattr(mod, "known_probe"):
+                        ok, why = mod.known_probe(ctx, f, r)
+                    elif hasattr(mod, "oracle_one"):
+                        ok, why = mod.oracle_one(ctx, f["example"], r)
+                    else:
+                        ok, why = False, "listed example"
+                    if not ok:
+                        ctx.violation(why, f["example"], {"cli": r, "known_probe": f["id"], "inside_slot_after_escape": f["id"] == "K2"})
+                except Exception:
+                    pass
     # a broken proof / extraction with no concrete failing input found by legs B/C
     found_input = any(f for _, f in ctx.violations)
     for name, why in ctx.proof["broken"]:
